@@ -340,7 +340,7 @@ fn read_fault(out: &mut Out, name: &str, enc: usize, data: &[u8], sched: &[Ev], 
     out.count(&format!("read.fault.{}", KIND_NAMES[k as usize]));
 }
 
-pub const RULE: &str = "read side: bundled maps (every byte offset of the small ones, sampled offsets of the large ones; UTF-8 as bundled plus UTF-16 re-encodings of small ones) and generated texts, delivered through a schedule that hands out exactly o bytes (one chunk / random pieces / with Interrupted) and then fails with Other, UnexpectedEof, PermissionDenied, TimedOut or WouldBlock; faultless schedules with random Interrupted; write side: Beatmap::encode of every decoded bundled map into a writer that fails / returns Ok(0) after o accepted bytes (every o for small maps), with whole and short writes, Interrupted, flush failure; non-trivial = fault after at least one complete line (read) or at least 3 write calls with a non-empty schedule (write); distinct = distinct case lines";
+pub const RULE: &str = "read side: bundled maps (every byte offset of the small ones, sampled offsets of the large ones; UTF-8 as bundled plus UTF-16 re-encodings of small ones) and generated texts, delivered through a schedule that hands out exactly o bytes (one chunk / random pieces / with Interrupted) and then fails with Other, UnexpectedEof, PermissionDenied, TimedOut or WouldBlock; faultless schedules with random Interrupted; write side: Beatmap::encode of every decoded bundled map, generated maps and a compact map with every record kind and path-type spelling (all four modes, every output offset) into a writer that fails / returns Ok(0) after o accepted bytes (every o for small maps), with whole and short writes, Interrupted, flush failure; non-trivial = fault after at least one complete line (read) or at least 3 write calls with a non-empty schedule (write); distinct = distinct case lines";
 
 pub fn generate(tier: &str, seed: u64, out: &mut Out) {
     let thorough = tier == "thorough";
@@ -429,6 +429,14 @@ pub fn generate(tier: &str, seed: u64, out: &mut Out) {
         }
     }
     maps.push(("default".into(), Beatmap::default()));
+    // a compact map with every record kind and every path-type spelling once, small enough for
+    // every output offset to be exercised
+    let all_kinds = "osu file format v14\n\n[General]\nAudioFilename: a.mp3\nMode: 0\n\n[Metadata]\nTitle:t\nBeatmapID:7\n\n[Events]\n0,0,\"bg.jpg\",0,0\n2,100,200\n\n[TimingPoints]\n0,400,4,2,1,60,1,0\n300,-50,4,1,0,70,0,1\n\n[Colours]\nCombo1 : 1,2,3\nSliderBorder : 4,5,6\n\n[HitObjects]\n10,20,100,1,0,0:0:0:0:\n10,20,300,2,0,B3|30:40|50:20|70:40,1,80\n10,20,500,6,2,B|30:40|50:20|50:20|70:40|L|90:40,2,120,2|0|2,0:0|1:2|0:0,0:0:0:0:\n10,20,900,2,0,P|30:40|50:20,1,50\n10,20,1100,2,0,C|30:40|50:20,1,50\n10,20,1300,2,0,B1|30:40,1,20\n256,192,1500,12,0,1700,0:0:0:0:\n64,192,1900,128,0,2000:1:2:3:40:hit.wav\n";
+    for mode in 0..4 {
+        if let Ok(m) = rosu_map::from_str::<Beatmap>(&all_kinds.replace("Mode: 0", &format!("Mode: {mode}"))) {
+            maps.push((format!("all-kinds-mode{mode}"), m));
+        }
+    }
     for (name, text) in all.iter().filter(|(n, _)| n.starts_with("generated")).take(if thorough { 30 } else { 6 }) {
         if let Ok(m) = rosu_map::from_str::<Beatmap>(text) {
             maps.push((name.clone(), m));
